@@ -36,7 +36,8 @@ func (p *prop) Rule() string {
 	return "histories of 6-16 operations over 2-7 rows and 6 columns on a fragment whose cache (ranked/lru/none) has size 1-4 (or 10 with up to 13 rows): " +
 		"setBit, clearBit, setRow, clearRow, bulk import (set/clear), roaring import (set/clear), RecalculateCache, close+reopen, each with the " +
 		"invalidate throttle on or off, interleaved with top(ids / n / filter row / threshold) and cache dumps; srv cases run the same writes on two shards " +
-		"and read through PQL TopN. A case is non-trivial when it writes more distinct rows than the cache holds and contains a top with explicit ids after that"
+		"and read through PQL TopN; pair cases (1 in 6): two fragments of one field, writes on both, hand-over WriteTo->ReadFrom in either direction onto a fresh or non-empty receiver, " +
+		"then top(ids), top(n), cache dump and row reads on the receiver. A case is non-trivial when it writes more distinct rows than the cache holds and contains a top with explicit ids after that"
 }
 
 // ---------- generation ----------
@@ -128,10 +129,67 @@ func genWrite(r *vh.Rng, rows []int) (string, []int) {
 	}
 }
 
+// genPairCase: two fragments of one field (same cache type, sizes may differ); writes on both, then
+// hand-overs (WriteTo -> ReadFrom) in either direction onto a receiver that is fresh or holds other
+// / older data, each followed by top with ids, top(n), a cache dump and row reads on the receiver.
+func genPairCase(r *vh.Rng) vh.Case {
+	kind := r.PickS("ranked", "ranked", "ranked", "lru", "lru", "none")
+	sa, sb := r.Pick(1, 2, 2, 3, 4), r.Pick(1, 2, 2, 3, 4)
+	nrows := r.Range(2, 5)
+	rows := make([]int, nrows)
+	for i := range rows {
+		rows[i] = i
+	}
+	lines := []string{fmt.Sprintf("pair %s %d %s %d", kind, sa, kind, sb)}
+	after := func(k int) {
+		lines = append(lines,
+			fmt.Sprintf("sh %d top t%d n=0 thr=0 ids=%s src=none", k, r.Intn(2), genIDs(r, rows)),
+			fmt.Sprintf("sh %d top t%d n=%d thr=%d ids=- src=none", k, r.Intn(2), r.Pick(0, 1, 2, 5), r.Pick(0, 0, 1, 2)),
+			fmt.Sprintf("sh %d cache", k),
+			fmt.Sprintf("row %d %d", k, rows[r.Intn(nrows)]))
+		if r.Chance(1, 3) {
+			lines = append(lines, fmt.Sprintf("sh %d top t%d %s", k, r.Intn(2), genTop(r, rows, "")))
+		}
+	}
+	nw := r.Range(2, 7)
+	for i := 0; i < nw; i++ {
+		w, _ := genWrite(r, rows)
+		lines = append(lines, fmt.Sprintf("sh 0 %s", w))
+	}
+	if r.Chance(2, 3) { // the receiver holds other / older data
+		nb := r.Range(1, 5)
+		for i := 0; i < nb; i++ {
+			w, _ := genWrite(r, rows)
+			lines = append(lines, fmt.Sprintf("sh 1 %s", w))
+		}
+	}
+	lines = append(lines, "transfer 0 1")
+	after(1)
+	if r.Chance(1, 2) {
+		nw := r.Range(1, 4)
+		for i := 0; i < nw; i++ {
+			w, _ := genWrite(r, rows)
+			lines = append(lines, fmt.Sprintf("sh %d %s", r.Intn(2), w))
+		}
+		if r.Chance(1, 2) {
+			lines = append(lines, "transfer 1 0")
+			after(0)
+		} else {
+			lines = append(lines, "transfer 0 1")
+			after(1)
+		}
+	}
+	return vh.Case{Lines: lines, Nontrivial: true}
+}
+
 func (p *prop) Gen(r *vh.Rng, tier string, n int) []vh.Case {
 	var cases []vh.Case
 	for k := 0; k < n; k++ {
 		cr := r.Fork()
+		if cr.Chance(1, 6) && hasTransferHook() {
+			cases = append(cases, genPairCase(cr))
+			continue
+		}
 		isSrv := cr.Chance(1, 10)
 		kind := cr.PickS("ranked", "ranked", "ranked", "ranked", "lru", "lru", "lru", "none")
 		if isSrv && kind == "none" {
@@ -210,6 +268,7 @@ type caseState struct {
 	dir   string // stand-alone
 	index string // srv
 	kind  string
+	pair  bool // two stand-alone fragments (hand-over cases)
 }
 
 func parseBits(s string) (rows, cols []uint64) {
@@ -282,8 +341,28 @@ func hintsOf(shard int, ev []string, wantAdds bool) []string {
 	return out
 }
 
+// The hand-over hooks were added after the first C12 hook commit; on a tree that does not have them
+// yet, pair cases are not generated and a replayed pair case is answered `skip` line by line.
+type transferHook interface {
+	Transfer(*pilosa.VerifC12Frag) error
+	Row(uint64) []uint64
+}
+
+func hasTransferHook() bool {
+	var f *pilosa.VerifC12Frag
+	_, ok := interface{}(f).(transferHook)
+	return ok
+}
+
 func (p *prop) Exec(lines []string) []string {
 	outs := make([]string, len(lines))
+	if len(lines) > 0 && strings.HasPrefix(lines[0], "pair ") && !hasTransferHook() {
+		for i := range lines {
+			lines[i], outs[i] = "skip", "skip"
+		}
+		vh.Count("pair-case-skipped-no-hook")
+		return outs
+	}
 	st := &caseState{}
 	t0 := time.Now()
 	defer func() {
@@ -340,6 +419,35 @@ func (p *prop) execLine(st *caseState, l string) (string, []string) {
 		return "bad-op", nil
 	}
 	switch ws[0] {
+	case "pair":
+		if len(ws) != 5 || len(st.frags) > 0 {
+			return "bad-op", nil
+		}
+		dir, err := os.MkdirTemp("", "verif-c12-")
+		if err != nil {
+			return "err:tempdir", nil
+		}
+		st.dir = dir
+		st.pair = true
+		for k := 0; k < 2; k++ {
+			kind := ws[1+2*k]
+			size, err := strconv.Atoi(ws[2+2*k])
+			if err != nil || (kind != "ranked" && kind != "lru" && kind != "none") {
+				return "bad-op", nil
+			}
+			sub := fmt.Sprintf("%s/%d", dir, k)
+			if err := os.Mkdir(sub, 0o755); err != nil {
+				return "err:tempdir", nil
+			}
+			f, err := pilosa.VerifC12OpenFragment(sub, kind, uint32(size))
+			if err != nil {
+				return "err:open", nil
+			}
+			st.frags = append(st.frags, f)
+		}
+		st.kind = ws[1]
+		vh.Count("case-pair-" + ws[1])
+		return "ok", nil
 	case "open", "srv":
 		if len(ws) != 3 || len(st.frags) > 0 {
 			return "bad-op", nil
@@ -392,8 +500,33 @@ func (p *prop) execLine(st *caseState, l string) (string, []string) {
 		return "bad-op", nil
 	}
 	switch ws[0] {
+	case "transfer":
+		if len(ws) != 3 || !st.pair {
+			return "bad-op", nil
+		}
+		i, err1 := strconv.Atoi(ws[1])
+		j, err2 := strconv.Atoi(ws[2])
+		if err1 != nil || err2 != nil || i == j || i < 0 || j < 0 || i > 1 || j > 1 {
+			return "bad-op", nil
+		}
+		if err := interface{}(st.frags[j]).(transferHook).Transfer(st.frags[i]); err != nil {
+			return "err:transfer", p.drain(st, false)
+		}
+		vh.Count("transfer")
+		return "ok", p.drain(st, false)
+	case "row":
+		if len(ws) != 3 || !st.pair {
+			return "bad-op", nil
+		}
+		k, err1 := strconv.Atoi(ws[1])
+		r, err2 := strconv.ParseUint(ws[2], 10, 64)
+		if err1 != nil || err2 != nil || k < 0 || k > 1 {
+			return "bad-op", nil
+		}
+		vh.Count("row")
+		return vh.U64s(interface{}(st.frags[k]).(transferHook).Row(r)), nil
 	case "sh":
-		if len(ws) < 3 || st.index == "" {
+		if len(ws) < 3 || (st.index == "" && !st.pair) {
 			return "bad-op", nil
 		}
 		k, err := strconv.Atoi(ws[1])
@@ -478,6 +611,9 @@ func tflag(s string) (bool, bool) {
 func (p *prop) fragOp(st *caseState, k int, ws []string) string {
 	f := st.frags[k]
 	shardBase := uint64(k) * sw
+	if st.pair {
+		shardBase = 0 // both fragments are shard 0 of their own scratch file
+	}
 	u := func(s string) (uint64, bool) {
 		v, err := strconv.ParseUint(s, 10, 64)
 		return v, err == nil
